@@ -7,7 +7,7 @@ RULE = ("for each of the three polyvec modules and each operation: input vectors
         "(so a skipped, repeated or transposed component changes the answer); the same batch contains the polynomial-level "
         "call for every component, and the vector answer must be exactly the list of those answers (matrix product: the sum over j "
         "of the pointwise products, recomputed from the polynomial-level answers); decomposition is also checked against an "
-        "independent HighBits/LowBits. distinct_nontrivial = distinct vector-level requests.")
+        "independent HighBits/LowBits. distinct_nontrivial = distinct vector-level requests. Boundary-valued rows (0, +-1, domain ends, +-q, +-(q-1)/2) for every unary vector operation.")
 EXPLANATION = ("Props/C19.lean: every vector operation of the model is the component-wise lift (length and per-index theorem), the "
                "matrix product is the row-wise accumulated sum, k_decompose returns (high, low). The tie checks each Rust loop against the "
                "polynomial-level functions of the same build.")
